@@ -428,6 +428,8 @@ func (self *PathNode) handleChild(in *[]PathNode, lp *int, cp *int, p *binary.Bi
 		con = con[:l+1]
 	}
 	v := &con[l]
+	// drop children left over from a previous use of this slot (reused / pooled trees)
+	v.Next = v.Next[:0]
 	l += 1
 
 	start := p.Read
@@ -531,6 +533,8 @@ func (self *PathNode) handleUnknownChild(in *[]PathNode, lp *int, cp *int, p *bi
 		con = con[:l+1]
 	}
 	v := &con[l]
+	// drop children left over from a previous use of this slot (reused / pooled trees)
+	v.Next = v.Next[:0]
 	l += 1
 
 	start := p.Read - tagL
